@@ -121,6 +121,17 @@ def node_fatal(res):
     return None
 
 
+def sort_step_ids(src):
+    """ids of the steps of a history source whose body calls sort / toSorted"""
+    ids = set()
+    marks = [(m.start(), m.group(1)) for m in re.finditer(r"S\((\d+),", src)]
+    for k, (pos, sid) in enumerate(marks):
+        seg = src[pos:marks[k + 1][0] if k + 1 < len(marks) else len(src)]
+        if "sort" in seg or "toSorted" in seg:
+            ids.add(sid)
+    return ids
+
+
 def sort_log_as_set(line, sort_steps):
     parts = line.split(" | ")
     if len(parts) >= 3 and parts[0].split(" ", 1)[0] in sort_steps and parts[1]:
@@ -303,11 +314,7 @@ def evaluate_chunk(cx, hs, base, tag):
         # How often the default comparator of sort / toSorted converts an element to a string (and so how often an
         # observable toString / join / prototype getter runs) depends on the sorting algorithm, which is implementation-
         # defined: the log of such a step is compared as a set of events.
-        sort_steps = set()
-        for line in h.lines:
-            m = re.match(r"S\((\d+),", line)
-            if m and ("sort" in line or "toSorted" in line):
-                sort_steps.add(m.group(1))
+        sort_steps = sort_step_ids("\n".join(h.lines))
         if sort_steps:
             tb = [sort_log_as_set(l, sort_steps) for l in tb]
             if tn is not None:
@@ -661,7 +668,7 @@ def replay(path, seed):
         print("NO-VERDICT %s: replay inconclusive (%s)" % (PID, fb or node_fatal(y) if y else "v8 unavailable"))
         return 2
     tn = [norm_v8(l) for l in (y.get("trace") or [])]
-    sort_steps = set(m.group(1) for m in re.finditer(r"S\((\d+),\d+,function\(t\)\{[^\n]*?(?:sort|toSorted)", rep["src"]))
+    sort_steps = sort_step_ids(rep["src"])
     if sort_steps:
         tb = [sort_log_as_set(l, sort_steps) for l in tb]
         tn = [sort_log_as_set(l, sort_steps) for l in tn]
